@@ -278,3 +278,10 @@ func newDisk() *simdisk.Disk {
 	sos.SetDisk(d)
 	return d
 }
+
+// swapDisk installs d as the simulated disk and returns the previous one.
+func swapDisk(d *simdisk.Disk) *simdisk.Disk {
+	prev := sos.Disk()
+	sos.SetDisk(d)
+	return prev
+}
